@@ -123,6 +123,11 @@ func (c *CertRevocationValidator) UnmarshalCaddyfile(d *caddyfile.Dispenser) err
 	c.OCSPConfig = caddyConfig.OCSPConfig
 	c.CRLConfig = caddyConfig.CRLConfig
 	c.Mode = caddyConfig.Mode
+	//the mode decides if a crl working directory is required
+	err = parseMode(c)
+	if err != nil {
+		return err
+	}
 	err = validateConfig(c)
 	if err != nil {
 		return err
